@@ -39,6 +39,15 @@ Proof.
   assert (existsb f l = true) by (apply existsb_exists; eauto). congruence.
 Qed.
 
+Lemma NoDup_snoc {A} (l : list A) x : NoDup l -> ~ In x l -> NoDup (l ++ [x]).
+Proof.
+  induction 1 as [|y l Hy Hn IH]; intros Hx; simpl.
+  - constructor; [intros []|constructor].
+  - constructor.
+    + intro Hin. apply in_app_or in Hin. destruct Hin as [Hin|[E|[]]]; [auto|]. subst. apply Hx. left. reflexivity.
+    + apply IH. intro. apply Hx. right. auto.
+Qed.
+
 (* ------------------------------------------------------------------ subsequences and real-time order *)
 Lemma subseq_refl l : subseq l l.
 Proof. induction l; constructor; auto. Qed.
@@ -393,5 +402,137 @@ Section Proofs.
       induction pas as [|pa pas IH]; intros [|r rs] Hlen Hth; simpl in *; try discriminate; constructor.
       + destruct (Hth 0 (mkT None (Ret r)) eq_refl) as [pa' [E Hn]]. simpl in E. inversion E; subst. auto.
       + apply IH; [lia|]. intros i t Hn. apply (Hth (S i) t Hn).
+  Qed.
+
+  (* ---------------------------------------------------------------- Part 2: one critical section per request *)
+  Lemma Forall2_nth {A B} (Rl : A -> B -> Prop) l1 l2 i x :
+    Forall2 Rl l1 l2 -> nth_error l1 i = Some x -> exists y, nth_error l2 i = Some y /\ Rl x y.
+  Proof.
+    intro H. revert i. induction H; intros [|i] Hn; simpl in *; try discriminate.
+    - inversion Hn; subst. eauto.
+    - eauto.
+  Qed.
+
+  Lemma Forall2_nth_r {A B} (Rl : A -> B -> Prop) l1 l2 i y :
+    Forall2 Rl l1 l2 -> nth_error l2 i = Some y -> exists x, nth_error l1 i = Some x /\ Rl x y.
+  Proof.
+    intro H. revert i. induction H; intros [|i] Hn; simpl in *; try discriminate.
+    - inversion Hn; subst. eauto.
+    - eauto.
+  Qed.
+
+  Lemma asect_at (a : astate) i p m k :
+    nth_error (snd a) i = Some p -> norm p = Acq m k ->
+    asect i a = (fst (run_sect k (fst a)), upd (snd a) i (snd (run_sect k (fst a)))).
+  Proof. unfold asect. intros -> ->. reflexivity. Qed.
+
+  Lemma one_section_run (p : prog) m k s r :
+    norm p = Acq m k -> norm (snd (run_sect k s)) = Ret r -> run_prog p s = (fst (run_sect k s), r).
+  Proof.
+    intros Hn Hr. rewrite <- run_prog_norm, Hn. simpl. rewrite run_prog_sect. apply run_prog_ret. auto.
+  Qed.
+
+  Lemma serial_from_app (progs : list prog) l1 l2 acc :
+    serial_from progs (l1 ++ l2) acc = serial_from progs l2 (serial_from progs l1 acc).
+  Proof. unfold serial_from. apply fold_left_app. Qed.
+
+  Section OneSection.
+    Variable progs : list prog.
+    Variable s0 : St.
+    Hypothesis Hone : Forall (one_section (St:=St) (Resp:=Resp)) progs.
+
+    (* what is known after the sections of [done] have run, in this order *)
+    Definition J (done : list nat) (a : astate) : Prop :=
+      let acc := serial progs done s0 in
+      length (snd a) = length progs /\
+      NoDup done /\
+      map fst (snd acc) = done /\
+      (forall i r, In (i, r) (snd acc) -> exists pa, nth_error (snd a) i = Some pa /\ norm pa = Ret r) /\
+      (forall i, ~ In i done -> nth_error (snd a) i = nth_error progs i) /\
+      fst acc = fst a.
+
+    Lemma J_step done (a : astate) i p m k :
+      J done a -> nth_error (snd a) i = Some p -> norm p = Acq m k -> J (done ++ [i]) (asect i a).
+    Proof.
+      intros [Hlen [Hnd [Hmap [Hres [Hun Hst]]]]] Hi Hn.
+      assert (Hni : ~ In i done).
+      { intro Hin. rewrite <- Hmap in Hin. apply in_map_iff in Hin. destruct Hin as [[j r] [Ej Hin]]. simpl in Ej; subst j.
+        destruct (Hres _ _ Hin) as [pa [Hpa Hr]]. rewrite Hi in Hpa. inversion Hpa; subst pa. congruence. }
+      pose proof (Hun _ Hni) as Hpi. rewrite Hi in Hpi. symmetry in Hpi.
+      rewrite Forall_forall in Hone. pose proof (Hone p (nth_error_In _ _ Hpi)) as [m' [k' [Hn' Htail]]].
+      rewrite Hn in Hn'. inversion Hn'; subst m' k'.
+      destruct (Htail (fst a)) as [r Hr].
+      rewrite (asect_at _ _ _ _ _ Hi Hn).
+      assert (Hser : serial progs (done ++ [i]) s0 =
+                     (fst (run_sect k (fst a)), snd (serial progs done s0) ++ [(i, r)])).
+      { unfold serial. rewrite serial_from_app. simpl. unfold serial_step. rewrite Hpi.
+        fold (serial progs done s0). rewrite Hst. rewrite (one_section_run _ _ _ _ _ Hn Hr). reflexivity. }
+      unfold J. rewrite Hser. simpl. rewrite upd_length.
+      split; [auto|]. split.
+      { apply NoDup_snoc; auto. }
+      split. { rewrite map_app, Hmap. reflexivity. }
+      split.
+      { intros j r' Hin. apply in_app_or in Hin. destruct Hin as [Hin|[Hin|[]]].
+        - destruct (Hres _ _ Hin) as [pa [Hpa Hpr]]. exists pa. split; auto.
+          rewrite nth_upd_other; auto. intro E; subst j. apply Hni. rewrite <- Hmap.
+          apply in_map_iff. exists (i, r'). auto.
+        - inversion Hin; subst j r'. exists (snd (run_sect k (fst a))). split; auto.
+          apply nth_upd_same. eapply nth_some_lt; eauto. }
+      split; [|reflexivity].
+      intros j Hnj. rewrite nth_upd_other; [apply Hun|]; intro; apply Hnj; apply in_or_app; [left|right; left]; auto.
+    Qed.
+
+    Lemma J_reach : forall (a : astate) order (a' : astate), areach a order a' ->
+      forall done, J done a -> J (done ++ order) a'.
+    Proof.
+      induction 1 as [a|a i p m k rest a' Hi Hn Hr IH]; intros done HJ.
+      - rewrite app_nil_r. auto.
+      - replace (done ++ i :: rest) with ((done ++ [i]) ++ rest) by (rewrite <- app_assoc; reflexivity).
+        apply IH. eapply J_step; eauto.
+    Qed.
+
+    Lemma J_init : J [] (s0, progs).
+    Proof.
+      unfold J, serial, serial_from; simpl. repeat split; auto.
+      - constructor.
+      - intros i r [].
+    Qed.
+  End OneSection.
+
+  (* THEOREM 2 (C09_serializable).  If every request has ONE critical section containing all its storage
+     steps, and steps under the shared lock leave the data unchanged, then every admitted schedule that
+     runs the requests to completion is equivalent to running the requests one at a time in the order in
+     which they acquired the lock: same responses, same data at the end; and that order respects
+     real-time precedence (a request all of whose steps precede all steps of another one comes first). *)
+  Theorem serializable (progs : list prog) (s0 : St) (sch : list nat) (c' : config) (rs : list Resp) :
+    Forall (wf None) progs -> Forall (one_section (St:=St) (Resp:=Resp)) progs ->
+    exec sch (init s0 progs) = Some c' -> finished c' rs ->
+    let order := acq_order sch (init s0 progs) in
+    Permutation order (seq 0 (length progs)) /\
+    subseq order sch /\
+    (forall a b, In a order -> In b order -> a <> b -> precedes sch a b -> before a b order) /\
+    obs (fst (serial progs order s0)) = obs (fst c') /\
+    map fst (snd (serial progs order s0)) = order /\
+    (forall i r, In (i, r) (snd (serial progs order s0)) -> nth_error rs i = Some r).
+  Proof.
+    intros Hwf Hone He Hfin order.
+    destruct (sections_atomic _ _ _ _ _ Hwf He Hfin) as [a' [Hr [Hobs Hf2]]].
+    pose proof (J_reach progs s0 Hone _ _ _ Hr [] (J_init progs s0)) as HJ. simpl in HJ. fold order in HJ.
+    destruct HJ as [Hlen [Hnd [Hmap [Hres [Hun Hst]]]]].
+    assert (Hresp : forall i r, In (i, r) (snd (serial progs order s0)) -> nth_error rs i = Some r).
+    { intros i r Hin. destruct (Hres _ _ Hin) as [pa [Hpa Hn]].
+      destruct (Forall2_nth _ _ _ _ _ Hf2 Hpa) as [y [Hy Hny]]. rewrite Hn in Hny. inversion Hny; subst. auto. }
+    assert (Hperm : Permutation order (seq 0 (length progs))).
+    { apply NoDup_Permutation; auto using seq_NoDup. intro x. rewrite in_seq. split.
+      - intro Hin. rewrite <- Hmap in Hin. apply in_map_iff in Hin. destruct Hin as [[j r] [Ej Hin]]; simpl in Ej; subst j.
+        destruct (Hres _ _ Hin) as [pa [Hpa _]]. apply nth_some_lt in Hpa. lia.
+      - intros [_ Hlt]. destruct (in_dec Nat.eq_dec x order) as [|Hni]; auto. exfalso.
+        pose proof (Hun _ Hni) as Hx. destruct (nth_error progs x) as [p|] eqn:Ep.
+        + destruct (Forall2_nth _ _ _ _ _ Hf2 Hx) as [y [_ Hny]].
+          rewrite Forall_forall in Hone. destruct (Hone p (nth_error_In _ _ Ep)) as [m [k [Hn _]]]. congruence.
+        + apply nth_error_None in Ep. simpl in Hlt. lia. }
+    split; [auto|]. split; [apply acq_order_subseq|]. split.
+    { intros a b Ha Hb Hab Hp. eapply realtime_subseq; eauto. apply acq_order_subseq. }
+    split; [rewrite Hst; auto|]. split; auto.
   Qed.
 End Proofs.
